@@ -40,7 +40,7 @@ package template
 //@   property C10 C14 C12 C02 C03 C04 C05 C13 C15
 //@   ensures [syntax_error_yields_no_text] format.Source(toBytes(c)).1 != nil ==> result.0 == "" && result.1 != nil
 //@   ensures [a_formatted_source_always_goes_through_import_pruning] format.Source(toBytes(c)).1 == nil ==>
-//@        (exists b []byte :: result.0 == fromBytes(imports.Process("", b, nil).0) && ((result.1 == nil) <==> (imports.Process("", b, nil).1 == nil)))
+//@        (exists b []byte :: ((result.1 == nil) <==> (imports.Process("", b, nil).1 == nil)) && (result.1 == nil ==> result.0 == fromBytes(imports.Process("", b, nil).0)))
 
 // ---- constructors
 //@ func NewBuilder
